@@ -698,6 +698,20 @@ class Subject:
     def has_open_order(self) -> bool:
         return any(refcodec.has_open_element_order(item[0]) for item in self.layout)
 
+    def walk_formats(self) -> list:
+        """
+        The layout as a format list for ``refcodec.walk`` (nested messages as tuples).
+        """
+        out: list = []
+        for item in self.layout:
+            if item[0] in ("payload", "payload-list"):
+                sub = REG["cls:" + item[2]] if isinstance(item[2], str) else item[2]
+                nested = tuple(sub.walk_formats())
+                out.append(nested if item[0] == "payload" else [nested])
+            else:
+                out.append(item[0])
+        return out
+
     def layout_attrs(self) -> set:
         out: set = set()
         for item in self.layout:
@@ -802,6 +816,14 @@ class Probe(Subject):
 
     def has_open_order(self) -> bool:
         return refcodec.has_open_element_order(self.fmt)
+
+    def walk_formats(self) -> list:
+        f = self.field
+        if f.kind == "payload":
+            return [tuple(f.sub.walk_formats())]
+        if f.kind == "plist":
+            return [[tuple(f.sub.walk_formats())]]
+        return [self.fmt]
 
 
 class Container(Subject):
@@ -1020,6 +1042,24 @@ def core(subj: Subject, plain, lead: bytes, trail: bytes, case: dict) -> bytes: 
         raise Violation("f", fsite(_field_at(subj, plain, pos)),
                         f"encoded bytes differ from the documented layout at byte {pos}: got {_hex(packed[pos:], 16)} "
                         f"expected {_hex(want[pos:], 16)} (lengths {len(packed)} / {len(want)})", case)
+
+    # self-check of the reference walker (reused by C03): it must delimit exactly the documented bytes
+    buf = lead + want + (b"" if subj.ends_raw else trail)
+    formats = subj.walk_formats()
+    try:
+        end = refcodec.walk(formats, buf, len(lead))
+    except (refcodec.Truncated, refcodec.Malformed) as e:
+        raise HarnessError(f"refcodec.walk rejects the reference encoding of {site}: {e}") from e
+    if end != len(lead) + len(want):
+        raise HarnessError(f"refcodec.walk delimits {len(lead)}..{end} for {site}, reference bytes end at "
+                           f"{len(lead) + len(want)}")
+    if want and not subj.ends_raw:
+        try:
+            refcodec.walk(formats, (lead + want)[:-1], len(lead))
+        except refcodec.Truncated:
+            pass
+        else:
+            raise HarnessError(f"refcodec.walk accepts a truncated {site}")
 
     def roundtrip(clause: str, buf: bytes, start: int) -> None:
         where = f"at offset {start}" if start else "at offset 0"
